@@ -242,6 +242,9 @@ func (s *Sched) notify() {
 
 func classOf(site string) string {
 	if i := strings.LastIndexByte(site, ':'); i >= 0 {
+		if site[i+1:] == "R6n" {
+			return "R6" // a read nested in a statement: muted together with the other R6 points
+		}
 		return site[i+1:]
 	}
 	return ""
@@ -288,6 +291,13 @@ func Yield(site string) {
 		return
 	}
 	s.Yield(site)
+}
+
+// After is a yield point between the evaluation of v and its use inside one statement
+// (inserted by the instrumenter around a read whose value feeds another call).
+func After[T any](site string, v T) T {
+	Yield(site)
+	return v
 }
 
 func (s *Sched) Yield(site string) {
